@@ -7,7 +7,7 @@ import traceback
 
 MODULES = {
     "C18": "check_cache", "C19": "check_cache",
-    "C20": "check_c20",
+    "C20": "check_c20", "C17": "check_c17",
 }
 
 
